@@ -10,6 +10,16 @@ taken through, on both FFIs,
       (new_pointer_type / new_array_type / new_function_type),
   (c) getctype(T, 'v_i') lines, compiled by gcc after the context's C
       declarations, must be accepted and sizeof(v_i) == ffi.sizeof(T).
+
+Audit extension: (1) the contexts also declare aggregates and enums that have
+no tag of their own (named only through a typedef), opaque structs, a pointer
+typedef to an opaque struct, and FILE; (2) the declarator text is passed with
+every kind of surrounding white space (blank, tab, newline, several) and
+either positionally or as replace_with=; (3) the same request is also made
+through the other entry point, getctype(<type string>, x); (4) the plain name
+is asked again after all other requests on T; (5) gcc is also given
+declarations built from a *named* declarator ('*w', 'w[2]', '(*w)[3]',
+'*w[2]', '(*w)(void)') whose size follows from C alone.
 """
 import os, sys, re, random, subprocess
 from vlib import core, cc, gen_cdef as GC, gen_tstr as TS
@@ -19,7 +29,11 @@ RULE = ("case = (declaration context, ctype T denoted by a C07-grammar type stri
         "declarator: 0-2 '*', optional nested grouping parentheses, '[N]' / '[]' / '(args)' "
         "suffixes with random blanks, args from primitives and the context's typedef/struct/"
         "union/enum names; plus one 'v_i' declaration per (T, FFI) for gcc; distinct = (context, "
-        "T name, FFI, x); non-trivial = T is not a bare primitive/aggregate or x is nested")
+        "T name, FFI, x); non-trivial = T is not a bare primitive/aggregate or x is nested.  "
+        "Every context also has typedef-only-named struct/union/enum, opaque struct, pointer-to-opaque "
+        "typedefs and FILE; x is wrapped in random white space (blank/tab/newline/several) and passed "
+        "positionally or by keyword; a third of the requests is repeated as getctype(type string, x); "
+        "every other (T, FFI) also gives gcc one declaration made from a named declarator")
 ASSUMPTIONS = ["x is read as an abstract declarator applied to T as if T were a typedef name (C 6.7.7); "
                "when that type does not exist in C / cffi (function returning array, array of "
                "incomplete type, a bare function type) nothing is demanded",
@@ -33,7 +47,13 @@ ASSUMPTIONS = ["x is read as an abstract declarator applied to T as if T were a 
                "among others (both parsers accept that; C07 ill-formed-string classes)",
                "argument types inside x come from a fixed parenthesis-free pool; their own parsing is C07's business",
                "gcc probe: objects larger than 4096 bytes and incomplete types are declared 'extern' "
-               "(acceptance of the declaration is still checked; sizeof only for complete types)"]
+               "(acceptance of the declaration is still checked; sizeof only for complete types)",
+               "getctype(s, x) with a type string s is the same request as getctype(typeof(s), x): its "
+               "result must re-parse to the same expected ctype (the text itself may differ)",
+               "named declarators for gcc: getctype(T, '*w') etc. is read like (b) with the identifier "
+               "inside; only shapes that are C types for that T are used ('w[2]' and '(*w)[3]' only for "
+               "complete T, '(*w)(void)' not for array T); the expected size is sizeof(void *) or "
+               "2 * ffi.sizeof(T)"]
 NSUF = 8                # declarator texts per type on the compiled FFI
 NSUF_INLINE = 3         # ... of which on the in-line FFI (each costs a pycparser run)
 SAN_DECIDES = False     # see judge(): only reports in the name-building path decide
@@ -51,6 +71,24 @@ def make_ctx(seed):
     rnd = random.Random(seed)
     return GC.Ctx(rnd, prefix='g%d_' % (seed % 100000), nd=rnd.choice([4, 8, 12]), funcs=False,
                   globals_=False)
+
+
+def extra_decls(seed):
+    """declarations every context gets on top of gen_cdef's: types that have no tag
+    of their own (their ctype is named by the typedef), opaque types"""
+    p = 'g%d_' % (seed % 100000)
+    P = p.upper()
+    lines = ['typedef struct { int a; char b; } %sas1;' % p,
+             'typedef union { long long u; char c[3]; } %sau1;' % p,
+             'typedef enum { %sAE1_A, %sAE1_B = 5 } %sae1;' % (P, P, p),
+             'typedef struct %soq1s %soq1;' % (p, p),
+             'typedef struct %soq2s *%sop2;' % (p, p),
+             'typedef struct { %sas1 inner; double d[2]; } %sas2;' % (p, p),
+             # the aggregate / enum has no name at all: cffi calls it '$<number>'
+             'typedef struct { short h; } *%sanp;' % p,
+             'typedef enum { %sAE2_A = 1 } *%saep;' % (P, p)]
+    return '\n'.join(lines) + '\n', [p + n for n in ('as1', 'au1', 'ae1', 'oq1', 'op2', 'as2', 'anp',
+                                                     'aep')]
 
 
 def names_of(c):
@@ -230,6 +268,47 @@ def has_void_param(t):
     return False
 
 
+def base_of(t):
+    while True:
+        if t.kind in ('pointer', 'array'):
+            t = t.item
+        elif t.kind == 'function':
+            t = t.result
+        else:
+            return t
+
+
+def origin_class(B, T):
+    """how the innermost named type of T got its name"""
+    b = base_of(T)
+    if b.kind in ('struct', 'union', 'enum'):
+        how = 'nothing' if '$' in b.cname else 'tag' if b.cname.startswith(b.kind + ' ') else \
+            'typedef_only'
+        try:
+            B.sizeof(b)      # (not b.fields: aborts on an opaque struct of a compiled FFI)
+        except (TypeError, ValueError):
+            return 'opaque_%s_named_by_%s' % (b.kind, how)
+        return '%s_named_by_%s' % (b.kind, how)
+    return None
+
+
+LEAD = ['', '', '', ' ', ' ', '\t', '\n', '  ', ' \t ', '\r\n']
+TRAIL = ['', '', '', ' ', '\t', '\n', '  ']
+# named declarators for gcc: (format, needs complete T, not for array T, size: number of
+# pointers, or None = 2 * sizeof(T))
+NAMED = [('*%s', False, False, 1), ('%s[2]', True, False, None), ('(*%s)[3]', True, False, 1),
+         ('*%s[2]', False, False, 2), ('(*%s)(void)', False, True, 1), (' * %s', False, False, 1)]
+
+
+def request(f, T, xt, kw):
+    """one getctype request in one of the equivalent call forms"""
+    if kw == 0:
+        return f.getctype(T, xt)
+    if kw == 1:
+        return f.getctype(T, replace_with=xt)
+    return f.getctype(cdecl=T, replace_with=xt)
+
+
 def child_case(st, case):
     import importlib
     from cffi import FFI
@@ -239,7 +318,8 @@ def child_case(st, case):
     only = case.get('only')
     for seed in case['seeds']:
         c = make_ctx(seed)
-        text = c.cdef_text()
+        xtext, xnames = extra_decls(seed)
+        text = c.cdef_text() + xtext
         try:
             ffi1 = FFI()
             ffi1.cdef(text)
@@ -259,6 +339,8 @@ def child_case(st, case):
             ['struct %s *' % x for x in nm['structs']] + ['union %s *' % x for x in nm['unions']] + \
             ['enum ' + x for x in nm['enums']]
         pool = PRIM_ARGS + ctxargs
+        # more typedef names for T (not as parameter types inside x)
+        nm['typedefs'] = nm['typedefs'] + xnames + ['FILE']
         ffis = []
         for label, f in (('inline', ffi1), ('compiled', ffi2)):
             am = {}
@@ -272,6 +354,7 @@ def child_case(st, case):
             for a in ctxargs:
                 am[a] = f.typeof(a)
             ffis.append((label, f, Interp(B, am)))
+        psize = B.sizeof(B.new_pointer_type(B.new_void_type()))
         rnd = random.Random(seed ^ 0x2545f491)
         g = TS.TGen(rnd, **nm)
         seen = set()
@@ -304,18 +387,36 @@ def child_case(st, case):
             for j in range(NSUF):
                 xs.append(fixed_decl(r2, pool, r2.choice(FIXED)) if r2.random() < 0.4
                           else gen_decl(r2, pool))
-            for (label, f, interp), T in zip(ffis, ts):
+            for fi, ((label, f, interp), T) in enumerate(zip(ffis, ts)):
                 kd = tkind(T)
                 rep.stat('T_' + kd)
+                if '$' in T.cname:
+                    # a type that has no C name at all (anonymous aggregate / enum reached through
+                    # a pointer typedef): one classifier for everything about it
+                    kd = 'dollar-name'
+                    rep.stat('T_named_with_dollar_number_' + label)
+                oc = origin_class(B, T)
+                if oc:
+                    rep.stat('T_base_' + oc)
+                name0 = None
                 for x in (xs if label == 'compiled' else xs[:1 + NSUF_INLINE]):
-                    xt = r2.choice(['', '', ' ']) + x + r2.choice(['', '', ' ', '\t'])
+                    lead = r2.choice(LEAD)
+                    xt = lead + x + r2.choice(TRAIL)
+                    kw = r2.choice([0, 0, 1, 2])
+                    if not x and r2.random() < 0.5:
+                        xt = None            # the one-argument form
+                    elif lead not in ('', ' '):
+                        rep.stat('x_led_by_tab_newline_or_several_blanks')
+                    if xt is not None and kw:
+                        rep.stat('x_passed_by_keyword')
                     det = [seed, ti]
                     key = (seed, T.cname, label, x)
-                    cls = '%s:%s:%s' % (label, kd, xclass(x))
+                    cls = '%s:%s' % (label, kd) if kd == 'dollar-name' else \
+                        '%s:%s:%s' % (label, kd, xclass(x))
                     where = '%s FFI, T = %r (from %r), x = %r [shape %s]' % (
                         label, T, s, xt, shape_of(x))
                     try:
-                        name = f.getctype(T, xt) if x else f.getctype(T)
+                        name = f.getctype(T) if xt is None else request(f, T, xt, kw)
                     except Exception as e:
                         rep.case(key)
                         rep.bad('getctype-raised:' + cls, '%s: getctype raised %s: %s' %
@@ -323,6 +424,7 @@ def child_case(st, case):
                         continue
                     if not x:
                         expected = T
+                        name0 = name
                         if name != T.cname:
                             rep.stat('plain_name_differs_from_cname')
                     else:
@@ -356,6 +458,45 @@ def child_case(st, case):
                     if got is not expected:
                         rep.bad('reparse-other-type:' + cls, '%s: getctype -> %r re-parses to %r, '
                                 'expected %r' % (where, name, got, expected), det)
+                        continue
+                    # the other entry point: the type given as a string
+                    if x and r2.random() >= 0.35:
+                        continue
+                    rep.stat('string_entry_requests')
+                    try:
+                        name_s = f.getctype(s) if xt is None else request(f, s, xt, kw)
+                    except Exception as e:
+                        rep.bad('string-entry-raised:' + cls, '%s: getctype(%r, %r) raised %s: %s, '
+                                'getctype(typeof(...), ...) gave %r' % (where, s, xt, type(e).__name__,
+                                                                       e, name), det)
+                        continue
+                    if name_s == name:
+                        rep.stat('string_entry_same_text')
+                        continue
+                    rep.stat('string_entry_other_text')
+                    try:
+                        got = f.typeof(name_s)
+                    except Exception as e:
+                        got = '%s: %s' % (type(e).__name__, e)
+                    if got is not expected:
+                        rep.bad('string-entry-other-type:' + cls, '%s: getctype(%r, %r) -> %r re-parses '
+                                'to %r, expected %r (getctype(typeof(...), ...) gave %r)' %
+                                (where, s, xt, name_s, got, expected, name), det)
+                # the plain name once more, after every other request on T: (a) must hold at
+                # that point of the history too
+                if name0 is not None:
+                    rep.stat('plain_name_asked_again')
+                    try:
+                        again = f.getctype(T)
+                        got = T if again == name0 else f.typeof(again)
+                    except Exception as e:
+                        again = got = '%s: %s' % (type(e).__name__, e)
+                    if again != name0:
+                        rep.stat('plain_name_asked_again_other_text')
+                    if got is not T:
+                        rep.bad('plain-name-changed-after-use:%s:%s' % (label, kd),
+                                '%s FFI, T = %r: getctype(T) gave %r, and after the other requests %r '
+                                'which re-parses to %r' % (label, T, name0, again, got), [seed, ti])
                 # (c) a declaration for gcc
                 if has_void_param(T):
                     # 'f(int, void)' is taken by both parsers but is not a C type
@@ -376,6 +517,23 @@ def child_case(st, case):
                         pass
                 lines.append([ti, label, kd, var, line, size, s])
                 rep.stat('gcc_declarations')
+                # ... and one from a named declarator, every other (T, FFI)
+                if (ti + fi) % 2:
+                    continue
+                ok = [n for n in NAMED if not (n[1] and size is None)
+                      and not (n[2] and T.kind == 'array')]
+                fmt, _, _, np = r2.choice(ok)
+                var = 'w_%d_%s' % (ti, label[0])
+                kd2 = kd if kd == 'dollar-name' else '%s:%s' % (kd, (fmt % 'w').replace(' ', ''))
+                try:
+                    line = f.getctype(T, fmt % var)
+                except Exception as e:
+                    rep.bad('getctype-raised:%s:%s:name' % (label, kd2), 'getctype(%r, %r) raised '
+                            '%s: %s' % (T, fmt % var, type(e).__name__, e), [seed, ti])
+                    continue
+                lines.append([ti, label, kd2, var, line, psize * np if np else 2 * size, s])
+                rep.stat('gcc_declarations_from_named_declarator')
+                rep.stat('gcc_named_declarator_' + (fmt % 'w').replace(' ', ''))
     res = rep.result()
     res['decls'] = decls
     return res
@@ -445,7 +603,7 @@ def finalize(ctx, setup):
 
     def work(item):
         (seed, ntypes), lines = item
-        src = make_ctx(seed).c_source()
+        src = make_ctx(seed).c_source() + extra_decls(seed)[0]
         internal = [ln for ln in lines if INTERNAL.search(ln[4])]
         try:
             return (probe(ctx.tmp, CCONV + COMPLEX_TD + src, lines),
@@ -474,6 +632,8 @@ def finalize(ctx, setup):
                               (label, var, line, rejected[k]), rp)
                 continue
             ctx.count('gcc_accepted_declarations')
+            if var.startswith('w_'):
+                ctx.count('gcc_accepted_declarations_from_named_declarator')
             if size is None:
                 ctx.count('gcc_incomplete_types_declared_extern')
             else:
